@@ -65,7 +65,7 @@ func (x *Engine) indexAnon(f *ssa.Function) {
 }
 
 // verifyFunc generates all obligations of one function under contract.
-func (x *Engine) verifyFunc(fs *FuncSpec, cs *Clause) (rep *FuncReport) {
+func (x *Engine) verifyFunc(fs *FuncSpec, cs *Clause, prop string) (rep *FuncReport) {
 	rep = &FuncReport{Key: fs.Key, Props: fs.Props}
 	fn := x.fnByKey[fs.Key]
 	if fn == nil {
@@ -80,7 +80,8 @@ func (x *Engine) verifyFunc(fs *FuncSpec, cs *Clause) (rep *FuncReport) {
 	x.curProps = fs.Props
 	x.obls = nil
 	x.topSpec = fs
-	x.conc = fs.Conc
+	x.conc = hasProp(fs.ConcProps, prop)
+	x.curProp = prop
 	defer func() {
 		if r := recover(); r != nil {
 			if s, ok := r.(string); ok && strings.Contains(s, "contract error") {
@@ -234,6 +235,12 @@ func (x *Engine) verifyFunc(fs *FuncSpec, cs *Clause) (rep *FuncReport) {
 			}
 		}
 		for i, c := range fs.Ensures {
+			if len(c.Props) > 0 && !hasProp(c.Props, prop) {
+				continue
+			}
+			if x.conc && len(c.Props) == 0 {
+				continue // sequential clauses are not valid under interference
+			}
 			ev := &Eval{x: x, st: ret, old: fr.entry, env: env, pkg: pkg}
 			g := x.safeEvalBool(ev, c)
 			lab := c.Label
@@ -250,7 +257,7 @@ func (x *Engine) verifyFunc(fs *FuncSpec, cs *Clause) (rep *FuncReport) {
 				x.obls = append(x.obls, &Obl{Name: x.curFn + "#cover[" + lab + "]", Func: x.curFn, Kind: "cover", Label: lab, Props: o.Props, NScript: len(x.script), Goal: notTerm(ant), Live: ret.live, Text: "antecedent reachable: " + c.Text, Expect: "sat"})
 			}
 		}
-		if fs.HasMod {
+		if fs.HasMod && !x.conc {
 			x.frameObligations(fr, fs, ret, env, pkg)
 		}
 		if x.conc {
